@@ -12,16 +12,16 @@ PROPERTY = 'C09'
 FUNCTIONS = ['frappy.modulebase.HasAccessibles.__init_subclass__', 'frappy.modulebase.Module.{__init__,_add_accessible}',
              'frappy.params.{Parameter,Command}.{clone,copy,merge,create_from_value,updateProperties,finish}',
              'frappy.properties.HasProperties.{__init_subclass__,__init__,setProperty}', 'frappy.datatypes.*.copy',
-             'frappy.mixins.HasControlledBy.register_input']
+             'frappy.mixins.HasControlledBy.{register_input,self_controlled}', 'frappy.mixins.HasOutputModule.{initModule,activate_control,deactivate_control}']
 ASSUMPTIONS = ['the property quantifies over programs; the solver quantifies over the values (limits, defaults, configured overrides, run-time '
                'mutations) inside a fixed catalogue of hierarchies: override by Parameter(), by bare value, by None, command overridden by a plain '
-               'method, mixin / multiple inheritance, inherit=False, struct parameter, controlled_by enum growth; class graph shapes beyond the '
+               'method, mixin / multiple inheritance, inherit=False, struct parameter, controlled_by enum growth, two independent control loops (take-over on one output must leave the other loop alone); class graph shapes beyond the '
                'catalogue are not covered']
 REQUIRED_TAGS = ['compared']
 LIMITS = {'quick': {'max_paths': 20000, 'max_s': 150}, 'thorough': {'max_paths': 200000, 'max_s': 900}}
 
 HIER = ['param-override', 'bare-value', 'none-override', 'method-command', 'mixin', 'inherit-false', 'struct', 'enum-growth', 'two-level',
-        'method-struct-command', 'property-two-level', 'bare-below-param', 'mixin-merge', 'feature-mixin', 'diamond', 'mixin-after', 'two-plain-mixins', 'branch-removes', 'shared-datatype-object']
+        'method-struct-command', 'property-two-level', 'bare-below-param', 'mixin-merge', 'feature-mixin', 'diamond', 'mixin-after', 'two-plain-mixins', 'branch-removes', 'shared-datatype-object', 'two-control-loops']
 
 
 def cases(tier):
@@ -159,6 +159,14 @@ def run_isolation(env, p):
         class Ctl(HasOutputModule, Writable):
             pass
         subs['Ctl'] = Ctl
+    elif h == 'two-control-loops':
+        class Ctl(HasOutputModule, Writable):      # controller of the first output
+            pass
+
+        class CtlB(HasOutputModule, Writable):     # controller of the second output: an independent loop
+            pass
+        subs['Ctl'] = Ctl
+        subs['CtlB'] = CtlB
     elif h == 'mixin-merge':
         class PartialMixin:                       # plain mixin carrying a partial override
             pz = Parameter(max=5)
@@ -285,6 +293,8 @@ def run_isolation(env, p):
         c = {'cls': w[n], 'description': n}
         if n == 'Ctl':
             c['output_module'] = 'out%d' % names.index('Out')
+        if n == 'CtlB':
+            c['output_module'] = 'out%d' % (names.index('Out') + 1)
         node_cfg[f'{n.lower()}{i}'] = c
     iconfigured = names.index('Base')
     node_cfg[f'base{iconfigured}']['pf'] = {'value': cval, 'max': cmax}
@@ -318,12 +328,39 @@ def run_isolation(env, p):
     now = {n: a.datatype.export_datatype() for n, a in Base.accessibles.items() if hasattr(a, 'datatype')}
     env.check(M.eq(now, ref_class_info), K + '/base-class-changed', diffkeys(now, ref_class_info))
     # (3) an instance created later equals the reference as well
-    _, late = describe(w, ['Base', 'Out'])
+    late_srv, late = describe(w, ['Base', 'Out'])
     env.check(M.eq(strip(late['Base']), strip(refdesc['Base'])), K + '/later-instance-changed', diffkeys(strip(late['Base']), strip(refdesc['Base'])))
     # (4) the second output module (no controller attached) still only knows 'self'
     iout = [i for i, n in enumerate(names) if n == 'Out']
     other_out = d[f'out{iout[1]}']
-    env.check(M.eq(strip(other_out), strip(refdesc['Out'])), K + '/sibling-output-changed')
+    if h != 'two-control-loops':
+        env.check(M.eq(strip(other_out), strip(refdesc['Out'])), K + '/sibling-output-changed')
+        env.check(not dict(mods[f'out{iout[1]}'].inputCallbacks), K + '/sibling-output-knows-foreign-inputs', sorted(mods[f'out{iout[1]}'].inputCallbacks))
+    if h == 'two-control-loops':
+        # behaviour, not only description: two independent loops (ctl0 -> first output, ctlb1 -> second output)
+        outa, outb = mods[f'out{iout[0]}'], mods[f'out{iout[1]}']
+        ctla, ctlb = mods['ctl0'], mods['ctlb1']
+        env.check(set(other_out['accessibles']['controlled_by']['datainfo']['members']) == {'self', 'ctlb1'}, K + '/controlled_by-not-grown',
+                  sorted(other_out['accessibles']['controlled_by']['datainfo']['members']))
+        order = env.choice('takeover', 2)
+        try:
+            ctla.activate_control()
+            env.check(bool(ctla.control_active) and outa.controlled_by.name == 'ctl0', K + '/take-over-without-effect')
+            if order == 0:
+                ctlb.activate_control()          # the other loop closes ...
+                env.check(bool(ctlb.control_active) and outb.controlled_by.name == 'ctlb1', K + '/take-over-without-effect')
+            else:
+                ctlb.activate_control()
+                outb.self_controlled()           # ... or the other output is taken over by hand
+                env.check(not ctlb.control_active and outb.controlled_by.name == 'self', K + '/hand-over-to-self-without-effect')
+            env.check(bool(ctla.control_active) and outa.controlled_by.name == 'ctl0', K + '/control-loop-of-other-output-switched-off',
+                      [bool(ctla.control_active), outa.controlled_by.name])
+        except Exception as e:
+            env.fail(K + '/control-hand-over-raised/' + type(e).__name__, repr(e)[:200])
+        env.check(sorted(outa.inputCallbacks) == ['ctl0'] and sorted(outb.inputCallbacks) == ['ctlb1'], K + '/inputs-of-other-output-registered',
+                  [sorted(outa.inputCallbacks), sorted(outb.inputCallbacks)])
+    env.check(not dict(late_srv.secnode.modules['out1'].inputCallbacks), K + '/later-output-knows-foreign-inputs',
+              sorted(late_srv.secnode.modules['out1'].inputCallbacks))
     env.check(M.eq(strip(late['Out']), strip(refdesc['Out'])), K + '/later-output-changed')
     if h == 'enum-growth':
         grown = d[f'out{iout[0]}']['accessibles']['controlled_by']['datainfo']['members']
